@@ -261,7 +261,16 @@ fn run_cell(entry: &str, shape: &str, depth: usize) -> &'static str {
         "strip_nulls" => {
             let a = deep_jsonb(shape, depth, 1);
             let mut o = Vec::new();
-            oe(&jsonb::strip_nulls(&a, &mut o))
+            let r = oe(&jsonb::strip_nulls(&a, &mut o));
+            if r == "ok" {
+                // the rebuilt document goes through the walkers again (a length that is wrong
+                // for the container around a rebuilt one only shows in the next reader)
+                let mut o2 = Vec::new();
+                let _ = jsonb::strip_nulls(&o, &mut o2);
+                let _ = jsonb::to_string(&o);
+                let _ = jsonb::contains(&o, &o);
+            }
+            r
         }
         "to_serde_json" => {
             let a = deep_jsonb(shape, depth, 1);
@@ -294,7 +303,14 @@ fn run_cell(entry: &str, shape: &str, depth: usize) -> &'static str {
             let a = deep_jsonb(shape, depth, 1);
             let kp = lib_keypath(&deep_keypath(shape, depth));
             let mut o = Vec::new();
-            oe(&jsonb::delete_by_keypath(&a, kp.iter(), &mut o))
+            let r = oe(&jsonb::delete_by_keypath(&a, kp.iter(), &mut o));
+            if r == "ok" {
+                let mut o2 = Vec::new();
+                let _ = jsonb::strip_nulls(&o, &mut o2);
+                let _ = jsonb::to_string(&o);
+                let _ = jsonb::get_by_keypath(&o, kp.iter());
+            }
+            r
         }
         "traverse_check_string" => {
             let a = deep_jsonb(shape, depth, 1);
